@@ -284,6 +284,8 @@ def build(cfg):
     for k, md in enumerate(cfg["modes"]):
         s = event.Source(trigger=MODES[md], path=(f"s{k}",))
         em.add(s); srcs.append(s)
+        if k % 2 and len(cfg["modes"]) % 3 == 0:
+            em.add(srcs[k // 2])      # adding a source a second time is allowed and has no effect
     trig = MODES[cfg["trigger"]] if cfg["trigger"] in (0, 1, 2) else "sideways"
     if cfg["trigger"] in (0, 1, 2) and len(cfg["modes"]) % 2 == 1:
         trig = event.Source.Trigger(trig)          # the enum spelling of the same parameter
